@@ -48,6 +48,7 @@ const (
 	AVSendApp
 	AVHeartbeat
 	AVSendSnap
+	AVClosePhase
 	numActKinds
 )
 
@@ -57,7 +58,7 @@ var actNames = [...]string{
 	"Propose", "ConfChange", "ReadIndex", "Transfer", "Campaign", "ForgetLeader",
 	"Unreachable", "SnapReport", "Compact", "Crash", "Restart", "Partition", "Heal",
 	"SnapFault", "Stop", "Checkpoint", "HealPhase",
-	"VElect", "VPropose", "VReplicate", "VCommit", "VCompact", "VSendApp", "VHeartbeat", "VSendSnap",
+	"VElect", "VPropose", "VReplicate", "VCommit", "VCompact", "VSendApp", "VHeartbeat", "VSendSnap", "VClosePhase",
 }
 
 func (k ActKind) String() string {
